@@ -5,8 +5,9 @@ From Coq Require Import List ZArith Bool.
 Import ListNotations.
 From Zn.model Require Import Lexer Ast Parser.
 From Zn.proofs Require Import FrontCompleteProofs.
-From Zn.proofs Require ExprPrecProofs ExprPrecSpacesProofs.
+From Zn.proofs Require ExprPrecProofs ExprPrecSpacesProofs ChainPrecProofs.
 Module EP := ExprPrecProofs.
+Module CP := ChainPrecProofs.
 Module EPS := ExprPrecSpacesProofs.
 Open Scope Z_scope.
 
@@ -55,6 +56,38 @@ Theorem C03_precedence_any_spacing : forall s gs, EP.wf s = true -> EP.leaves_ok
   = OTree (EP.one_expression (EP.ast s)) [mkLine 0 0] GenFrontTokens.g_IndentUnknown.
 Proof. exact EPS.compile_show_spaces_default. Qed.
 Print Assumptions C03_precedence_any_spacing.
+
+(* ---- call / index / member chains: leaves may be chains ----
+   [CP.chain_expr e]: e is built from identifiers and text literals with the operators above AND postfix chains of any length and
+   mixture — index by a name, a text or any expression in braces (A#1, A#“k”, A#{ e }), property access in either spelling
+   (A之B, A的B) — array literals 【e1，…】 and plain calls （F：e1、…） whose items / arguments are again such expressions.  The
+   minimal-brace text compiles to exactly that tree: a postfix chain binds tighter than every operator (A#1 + B之C * D#2 is
+   (A#1) + ((B之C) * (D#2))), chains associate to the left (A#1#2 is (A#1)#2), a braced index holds any expression. *)
+Theorem C03_chains_every_tree : forall w e, CP.chain_expr e = true ->
+  exists src, CP.print_chain w e = Some src /\
+    (forall fuel, (CP.fuel_chain w e <= fuel)%nat ->
+       compile fuel src = OTree (EP.one_expression e) [mkLine 0 0] GenFrontTokens.g_IndentUnknown) /\
+    compile (default_fuel src) src = OTree (EP.one_expression e) [mkLine 0 0] GenFrontTokens.g_IndentUnknown /\
+    compile_encode src = [[1; 0; 0; 0]; enc_lines [mkLine 0 0]; enc_program (EP.one_expression e)].
+Proof. exact CP.C03_chains_every_tree. Qed.
+Print Assumptions C03_chains_every_tree.
+
+(* every operator tree of C03_precedence_all_trees is in this fragment *)
+Theorem C03_chains_extend_operators : forall e, EP.op_expr e = true -> CP.chain_expr e = true.
+Proof. exact CP.op_expr_chain. Qed.
+Print Assumptions C03_chains_extend_operators.
+
+(* token level, any parser state; the token after the expression must not continue it (and, after a plain call, must not be 得到) *)
+Theorem C03_chains_tokens : forall s fuel st st', CP.cwf s = true -> (CP.ccfuel s <= fuel)%nat ->
+  EP.feeds (CP.cshow s) st st' -> CP.stopsS 6 st' -> parse_expression fuel st = Ok (CP.cast s) st'.
+Proof. exact CP.parse_cshow_tokens. Qed.
+Print Assumptions C03_chains_tokens.
+
+Example C03_example_chain :                                  (* A#1 + B之C * D#2  is  (A#1) + ((B之C) * (D#2)) *)
+  compile 400 [65; 35; 49; 32; 43; 32; 66; 20043; 67; 32; 42; 32; 68; 35; 50]
+  = OTree (EP.one_expression (EArith 12 (CP.midx (EId [65]) (EId [49]))
+                                        (EArith 14 (CP.mprop (EId [66]) [67]) (CP.midx (EId [68]) (EId [50]))))) [mkLine 0 0] 0.
+Proof. vm_compute. reflexivity. Qed.
 
 (* more fuel never changes an answer: for every production, state and pair of fuels *)
 Theorem C03_fuel_monotone : forall f g src, (f <= g)%nat -> compile f src = OFuel \/ compile f src = compile g src.
